@@ -34,7 +34,7 @@ const secret = "s3cret"
 // machine is shared: a reply that the client misses through scheduler starvation would look like
 // an outage the scripted server did not order.  Runs in which that is detected are repeated; the
 // last repetition uses slowTimeout.
-const fastTimeout = 250 * time.Millisecond
+const fastTimeout = 400 * time.Millisecond
 const slowTimeout = 900 * time.Millisecond // below the 1 s retransmission interval of layeh/radius
 
 // ---------------------------------------------------------------- case description (replayable)
@@ -718,6 +718,35 @@ func runOnce(d Desc, tmp string, strict bool) vh.Case {
 				want = len(prevDisk.Files)
 			}
 			if want >= 0 && len(evs) < want {
+				panic(flaky{})
+			}
+		}
+		// the same for an op that died at its c-th crash point: the transmissions before that point
+		if strict && ret == 2 && o.C > 0 {
+			min := func(a, b int) int {
+				if a < b {
+					return a
+				}
+				return b
+			}
+			want := 0
+			switch o.K {
+			case "start":
+				want = 1
+			case "stop":
+				if o.C >= 2 {
+					want = 1
+				}
+			case "pq":
+				want = min(1, len(prevSnap.Chan))
+			case "rtick":
+				want = min(o.C, len(prevSnap.Pend))
+			case "itick":
+				want = min(o.C, len(prevSnap.Sess))
+			case "restart":
+				want = min((o.C+1)/2, len(prevDisk.Files))
+			}
+			if len(evs) < want {
 				panic(flaky{})
 			}
 		}
